@@ -70,6 +70,16 @@ def build_module(spec):
     from ppci import ir
     if spec["k"] == "random":
         return random_module(spec)
+    if spec["k"] == "irgen":
+        return irgen_module(spec)
+    if spec["k"] == "irfile":  # a module kept as IR text in corpus/C29/
+        import io
+        from ppci import irutils
+        return irutils.read_module(io.StringIO((common.VERIF / "corpus" / "C29" / spec["file"]).read_text()))
+    if spec["k"] == "csrc":
+        import io
+        from ppci import api
+        return api.c_to_ir(io.StringIO(C_SOURCES[spec["name"]]), spec["march"])
     from ppci.binutils.debuginfo import DebugDb
     m = ir.Module("m", debug_db=DebugDb())  # like every front-end (mem2reg needs a debug_db to record its phis)
     k = spec["k"]
@@ -245,6 +255,97 @@ def build_module(spec):
             raise ValueError("nest of " + o["k"])
         b.add_instruction(r)
         b.add_instruction(ir.Return(r))
+    elif k == "phishape":  # loop headers: self-referencing phis, swaps, constant / undefined inputs, several back edges
+        t = spec.get("ty", "i32")
+        T = _ty(t)
+        f, b, (n, x) = fn(t, [t, t])
+        sh = spec["shape"]
+        zero = ir.Const(0, "zero", T)
+        one = ir.Const(1, "one", T)
+        b.add_instruction(zero)
+        b.add_instruction(one)
+        if sh == "selfloop":      # single block looping on itself; x unchanged: x = phi(entry: x0, loop: x)
+            lp, ex = blk(f, "loop"), blk(f, "done")
+            b.add_instruction(ir.Jump(lp))
+            i, acc = ir.Phi("i", T), ir.Phi("acc", T)
+            lp.add_instruction(i)
+            lp.add_instruction(acc)
+            i2 = ir.Binop(i, "+", one, "i2", T)
+            lp.add_instruction(i2)
+            lp.add_instruction(ir.CJump(i2, "<", n, lp, ex))
+            i.set_incoming(b, zero)
+            i.set_incoming(lp, i2)
+            acc.set_incoming(b, x)
+            acc.set_incoming(lp, acc)
+            r = ir.Binop(acc, "+", i2, "r", T)
+            ex.add_instruction(r)
+            ex.add_instruction(ir.Return(r))
+        elif sh in ("continue", "twoback", "constundef"):
+            # head: i = phi(entry, cont, body); acc = phi(entry: x, cont: <kept>, body: acc2)
+            head, step, cont, body, done = (blk(f, nm) for nm in ("head", "step", "cont", "body", "done"))
+            und = ir.Undefined("und", T)
+            if sh == "constundef":
+                b.add_instruction(und)
+            b.add_instruction(ir.Jump(head))
+            i, acc = ir.Phi("i", T), ir.Phi("acc", T)
+            head.add_instruction(i)
+            head.add_instruction(acc)
+            head.add_instruction(ir.CJump(i, "<", n, step, done))
+            i2 = ir.Binop(i, "+", one, "i2", T)
+            bit = ir.Binop(i2, "&", one, "bit", T)
+            step.add_instruction(i2)
+            step.add_instruction(bit)
+            step.add_instruction(ir.CJump(bit, "==", zero, cont, body))
+            cont.add_instruction(ir.Jump(head))
+            acc2 = ir.Binop(acc, "+", i2, "acc2", T)
+            body.add_instruction(acc2)
+            body.add_instruction(ir.Jump(head))
+            done.add_instruction(ir.Return(acc))
+            i.set_incoming(b, zero)
+            i.set_incoming(cont, i2)
+            i.set_incoming(body, i2)
+            if sh == "continue":      # acc keeps its own value along the `continue` edge
+                acc.set_incoming(b, x)
+                acc.set_incoming(cont, acc)
+                acc.set_incoming(body, acc2)
+            elif sh == "twoback":     # two back edges, both changing
+                acc.set_incoming(b, x)
+                acc.set_incoming(cont, i2)
+                acc.set_incoming(body, acc2)
+            else:                     # undefined on entry, constant on one back edge
+                acc.set_incoming(b, und)
+                acc.set_incoming(cont, one)
+                acc.set_incoming(body, acc2)
+        elif sh in ("swap", "rotate"):  # header phis that read each other: a, b = b, a  /  a, b, c = b, c, a
+            head, body, done = blk(f, "head"), blk(f, "body"), blk(f, "done")
+            b.add_instruction(ir.Jump(head))
+            i, pa, pb, pc = ir.Phi("i", T), ir.Phi("pa", T), ir.Phi("pb", T), ir.Phi("pc", T)
+            for ph in (i, pa, pb, pc):
+                head.add_instruction(ph)
+            head.add_instruction(ir.CJump(i, "<", n, body, done))
+            i2 = ir.Binop(i, "+", one, "i2", T)
+            body.add_instruction(i2)
+            body.add_instruction(ir.Jump(head))
+            i.set_incoming(b, zero)
+            i.set_incoming(body, i2)
+            pa.set_incoming(b, x)
+            pb.set_incoming(b, n)
+            pc.set_incoming(b, one)
+            if sh == "swap":
+                pa.set_incoming(body, pb)
+                pb.set_incoming(body, pa)
+                pc.set_incoming(body, pc)
+            else:
+                pa.set_incoming(body, pb)
+                pb.set_incoming(body, pc)
+                pc.set_incoming(body, pa)
+            r1 = ir.Binop(pa, "-", pb, "r1", T)
+            r = ir.Binop(r1, "+", pc, "r", T)
+            done.add_instruction(r1)
+            done.add_instruction(r)
+            done.add_instruction(ir.Return(r))
+        else:
+            raise ValueError(sh)
     elif k == "binopc":  # binop of a parameter and a constant on the given side
         f, b, (a,) = fn(spec["ty"], [spec["ty"]])
         c = ir.Const(spec["value"], "c", _ty(spec["ty"]))
@@ -327,6 +428,47 @@ def matrix(types):
 
 # IR operations irdag cannot translate at all (no tree head): kept out of the alphabet matrix, compiled in the corpus
 NO_HEAD_SPECS = [{"k": "binop", "op": "rol", "ty": "i32"}, {"k": "binop", "op": "ror", "ty": "u32"}]
+
+
+PHI_SHAPES = ["selfloop", "continue", "twoback", "constundef", "swap", "rotate"]
+
+# C sources with continue / break / several back edges: mem2reg at level >= 1 turns the variables into header phis
+C_SOURCES = {
+    "continue": """
+int g[32];
+int f(int n, int x) {
+  int i = 0; int s = 0;
+  while (i < n) { i = i + 1; if (g[i] == 0) continue; s = s + x; x = x + 1; }
+  return s + x;
+}
+""",
+    "break": """
+int h(int n, int a, int b) {
+  int i; int t = a;
+  for (i = 0; i < n; i++) { if (i == b) break; if (i & 1) continue; int u = a; a = b; b = u; t += a; }
+  return t + a - b;
+}
+""",
+    "nested": """
+int k(int a, int b) {
+  int r = 0; int i; int j;
+  for (i = 0; i < (a & 7); i++) { for (j = 0; j < (b & 3); j++) { if ((i ^ j) & 1) continue; r += i * j; if (r > 40) break; } }
+  do { r = r - 1; if (r == 7) continue; a = a + 1; } while (r > a);
+  return r + a;
+}
+""",
+}
+
+
+def irgen_module(spec):
+    """a module from the shared generator harness/irgen.py (self-referencing phis, swaps, continue/break, switch chains)"""
+    import random
+    from harness import irgen
+    cfg = irgen.GenConfig(int_types=[_ty(t) for t in spec["int_types"]], floats=False, narrow_ops=False, undefined=spec.get("undefined", False),
+                          indirect_calls=spec.get("indirect", False), max_funcs=2, total_stmts=spec.get("stmts", 30),
+                          # irgen initialises its stack slots / result global with i64 stores: only where the target has i64
+                          globals=spec.get("mem", True), allocas=spec.get("mem", True), copyblob=spec.get("mem", True))
+    return irgen.gen_module(random.Random(spec["seed"]), cfg).module
 
 
 OPT_CRASH_SPECS = [
@@ -780,11 +922,32 @@ def random_module(spec):
                 continue
             lp, ex = newblock(), newblock()
             pre = cur
-            pre.add_instruction(ir.Jump(lp))
+            # header phis that keep their own value along the back edge / read each other (swap);
+            # incoming values are chosen before any of the new phis enters the pool
+            extra = []
+            kt1, kt2 = rng.choice(types + ["ptr"]), rng.choice(types)
+            kv = value(pre, kt1, pool) if rng.random() < 0.6 else None
+            v1, v2 = (value(pre, kt2, pool), value(pre, kt2, pool)) if rng.random() < 0.4 else (None, None)
             ph = ir.Phi(next(names), _ty(it))
             lp.add_instruction(ph)
             add(ph, it)
+            if kv is not None:
+                kp = ir.Phi(next(names), _ty(kt1))
+                lp.add_instruction(kp)
+                extra.append((kp, kv, kp))
+                add(kp, kt1)
+            if v1 is not None and v2 is not None:
+                p1, p2 = ir.Phi(next(names), _ty(kt2)), ir.Phi(next(names), _ty(kt2))
+                lp.add_instruction(p1)
+                lp.add_instruction(p2)
+                extra += [(p1, v1, p2), (p2, v2, p1)]
+                add(p1, kt2)
+                add(p2, kt2)
             straight(lp, pool, rng.randint(0, size // 2))
+            pre.add_instruction(ir.Jump(lp))
+            for php, vin, vback in extra:
+                php.set_incoming(pre, vin)
+                php.set_incoming(lp, vback)
             nx = ir.Binop(ph, "+", step, next(names), _ty(it))
             lp.add_instruction(nx)
             ph.set_incoming(pre, init)
@@ -871,11 +1034,36 @@ class Capture:
         self.cls.gen = self.orig
 
 
+GENERIC_SITES = {"__setitem__", "__init__", "__getitem__", "__call__", "<lambda>", "setter", "getter", "set_field", "set_patterns",
+                 "set_all_patterns", "encode", "u8", "u16", "u32", "u64", "i8", "i16", "i32", "i64", "wrap_negative", "get_value",
+                 "do_emit", "emit", "emit_all", "<listcomp>", "<genexpr>", "<dictcomp>"}
+
+
+GENERIC_MODULES = {"token", "outstream", "peephole", "encoding"}
+
+
 def site_of(e):
-    site = "?"
-    for fr in traceback.extract_tb(e.__traceback__):
-        if "/ppci/" in fr.filename:
-            site = fr.name
+    """<module>.<function> of the innermost ppci frame; when that function is a generic sink (token setter, integer
+    packer, constructor, lambda, value lookup ...) the nearest enclosing specific ppci function and, for encoders,
+    the instruction class are appended, so that a new failure elsewhere cannot share the signature."""
+    frames = []
+    tb = e.__traceback__
+    while tb is not None:
+        fn = tb.tb_frame.f_code.co_filename
+        if "/ppci/" in fn:
+            frames.append((fn.rsplit("/", 1)[-1][:-3], tb.tb_frame.f_code.co_name, tb.tb_frame.f_locals.get("self")))
+        tb = tb.tb_next
+    if not frames:
+        return "?"
+    mod, func, _ = frames[-1]
+    site = f"{mod}.{func}"
+    if func in GENERIC_SITES or mod in GENERIC_MODULES:
+        for _m, _f, slf in reversed(frames):
+            if slf is not None and hasattr(type(slf), "syntax") and hasattr(slf, "get_tokens"):
+                return site + f"[{type(slf).__name__}]"
+        for m2, f2, _s in reversed(frames[:-1]):
+            if f2 not in GENERIC_SITES and m2 not in GENERIC_MODULES:
+                return site + f"<{m2}.{f2}"
     return site
 
 
@@ -885,7 +1073,7 @@ def compile_case(key, spec, opt):
     from ppci import api
     from ppci.common import CompilerError
     from ppci.irutils import verify_module
-    logging.getLogger("verifier").setLevel(logging.ERROR)
+    logging.disable(logging.WARNING)  # front-end / verifier warnings ("Function does not return a value", ...)
     m = build_module(spec)
     verify_module(m)
     stage = "opt"
@@ -908,7 +1096,8 @@ def compile_case(key, spec, opt):
                 sig = f"{key}:{cap.log[-1]['culprit']}"
             else:
                 sig = f"{key}:{type(e).__name__}:{site_of(e)}"
-            res = {"outcome": "internal-error", "signature": sig, "msg": msg}
+            res = {"outcome": "internal-error", "signature": sig, "msg": msg,
+                   "notcov": (isinstance(e, RuntimeError) and "not covered" in str(e)) or "not defined" in str(e)}
     res["trees"] = cap.log
     return res
 
@@ -966,6 +1155,14 @@ def corpus_jobs():
     # pointer constants folded beyond the pointer width (the folder cannot wrap ptr) reach the encoders
     jobs += [("arm", {"k": "ptrchain", "c1": 4294967295, "c2": 1}, 2), ("thumb", {"k": "ptrchain", "c1": 4294967295, "c2": 1}, 2),
              ("x86_64", {"k": "ptrchain", "c1": 2 ** 64 - 1, "c2": 1}, 2)]
+    # loop-header phi shapes (hand-built, every target, opt 0 and 2) and C loops with continue/break at levels 1, 2, s
+    for key in TARGETS:
+        for sh in PHI_SHAPES:
+            jobs += [(key, {"k": "phishape", "shape": sh}, 0), (key, {"k": "phishape", "shape": sh}, 2)]
+        for name in C_SOURCES:
+            jobs += [(key, {"k": "csrc", "name": name, "march": TARGETS[key]}, lvl) for lvl in (0, 1, 2, "s")]
+    # register allocator gives up after 30 spill rounds (module found by the shared generator, kept as IR text)
+    jobs += [(key, {"k": "irfile", "file": "regalloc_giveup_arm.ir"}, 0) for key in ("arm", "riscv", "x86_64")]
     # fixed: rvc matched `c >> reg` with the reg-by-constant pattern (821633c)
     jobs += [(key, {"k": "binopc", "op": op, "ty": "i32", "value": v, "side": sd}, 0)
              for key in ("riscv", "rvc") for op in ("<<", ">>") for sd, v in (("l", -100), ("l", 5), ("r", -1), ("r", 3), ("r", 40))]
@@ -1047,19 +1244,21 @@ def evaluate_one(ctx, tag, key, spec, opt, res, replies, index):
         if cov == "0":
             model_uncovered = True
     # table verdict vs outcome
-    not_cov = res["outcome"] == "internal-error" and ("not covered" in res["msg"] or "not defined" in res["msg"])
+    not_cov = res["outcome"] == "internal-error" and bool(res.get("notcov"))
     if model_uncovered != not_cov:
         ctx.disagree("table verdict vs compile outcome", case, res["outcome"] + " " + res["msg"][:80],
                      "uncovered tree" if model_uncovered else "all trees covered")
     if res["outcome"] == "internal-error":
         ctx.count("internal_error_" + res["signature"].split(":")[0])
         ctx.fail(res["signature"], f"ir_to_object({key}, opt {opt}) on {spec_name(spec)}: {res['msg']}", case)
-    if len(ctx.samples) < 6 and res["trees"] and res["outcome"] == "ok" and spec["k"] in ("random", "alloc", "call"):
+    if len(ctx.samples) < 6 and res["trees"] and res["outcome"] == "ok" and spec["k"] in ("random", "alloc", "call", "phishape"):
         ctx.sample({"case": case if spec["k"] != "random" else {"target": key, "spec": "random seed %d" % spec["seed"], "opt": opt},
                     "trees": [t["toks"] for t in res["trees"][:3]], "outcome": res["outcome"]})
 
 
 def spec_name(spec):
+    if spec["k"] == "irgen":
+        return f"irgen module (seed {spec['seed']}, types {','.join(spec['int_types'])})"
     if spec["k"] == "random":
         return f"random function (seed {spec['seed']}, size {spec.get('size')})"
     return " ".join(f"{k}={v}" for k, v in spec.items())
@@ -1093,6 +1292,16 @@ def check(ctx):
             spec = {"k": "random", "seed": ctx.rng.getrandbits(32), "types": d["types"], "ptr": ptr, "safe": True,
                     "avoid": [] if free else d["excluded"], "size": ctx.rng.choice([4, 8, 16, 30])}
             rjobs.append((k, spec, ctx.rng.choice([0, 2])))
+    # ---- modules of the shared generator harness/irgen.py (continue/break, swaps, self-referencing phis, switch chains)
+    ni = 150 if ctx.thorough else 16
+    for k in TARGETS:
+        wide = ["i32", "u32"] + (["i64", "u64"] if "i64" in info[k]["types"] else [])
+        allint = [t for t in info[k]["types"] if t[0] in "iu"]
+        for i in range(ni):
+            spec = {"k": "irgen", "seed": ctx.rng.getrandbits(32), "int_types": allint if i % 4 == 3 else wide,
+                    "undefined": i % 2 == 0, "indirect": i % 5 == 0, "stmts": ctx.rng.choice([12, 30, 60]),
+                    "mem": "i64" in info[k]["types"]}
+            rjobs.append((k, spec, ctx.rng.choice([0, 1, 2, "s"])))
     # ---- targeted search around heads that newly lack an unconditional flat rule, and the conditional-only heads ------
     for k in TARGETS:
         d = info[k]
